@@ -577,6 +577,62 @@ def c_float(v, p, out, info):
     return None
 
 
+# ------------------------------------------------------------- subject types
+# The subject of a string filter need not be a plain str.  Kinds the harness
+# builds around a generated text (vt.gen.fcase_c2223):
+#   strsub    a str subclass                      -> behaves as the text
+#   markup    markupsafe.Markup(text)             -> a str subclass whose operators escape
+#                                                    plain-str operands; with operands free of
+#                                                    & < > ' " it behaves as the text
+#   stronly   object with only __str__            -> "a value": its text is str(value), for
+#   lazy      lazy-string proxy (no __html__)        the filters documented on "a value"
+#   html      object with __html__() = the text and an unrelated __str__
+#   htmlonly  object with only __html__() = the text
+# For the last two the documentation defines which form a filter works on only
+# for striptags, the one filter of this property that is defined on MARKUP
+# ("Strip SGML/XML tags", signature ``str | HasHTML``): the markup form of a
+# value implementing the __html__ protocol is value.__html__().  For every
+# other filter the choice between str(value) and value.__html__() is not
+# documented with autoescape off, and only agreement of the drives is checked.
+SUBJECT_KINDS = ["strsub", "markup", "stronly", "lazy", "html", "htmlonly"]
+# docstrings that speak of "a value" / "the value" (Convert a value to uppercase,
+# Capitalize a value, a titlecased version of the value, Centers the value, Return a
+# copy of the value with ...): the text of a value that is not a string is str(value).
+# trim, wordcount, format, truncate, indent, wordwrap, urlencode, striptags speak of
+# strings (striptags: of str | HasHTML) and promise nothing for other objects.
+_VALUE_FILTERS = {"upper", "lower", "capitalize", "title", "center", "replace"}
+# the random subject-type cases rotate over the filters that take text (round's
+# subject is always a number); striptags, the filter defined on markup, twice
+TYPED_ROTATION = sorted(set(SIG) - {"round"}) + ["format", "striptags"]
+_HTML_SPECIALS = set("&<>'\"")
+
+
+def _has_specials(args, kwargs):
+    return any(isinstance(a, str) and (set(a) & _HTML_SPECIALS)
+               for a in list(args) + list(kwargs.values()))
+
+
+def typed_mode(name, kind, args, kwargs):
+    """'text': the contract of ``name`` on the generated text applies;
+    'object': the int/float contract for a value that is no number applies;
+    None: the documentation is silent, only the drives have to agree."""
+    if name in ("int", "float"):
+        return "text" if kind in ("strsub", "markup") else "object"
+    if name in ("round", "filesizeformat"):
+        return "text" if kind == "strsub" else None
+    if kind == "strsub":
+        return "text"
+    if kind == "markup":
+        if name == "format" or _has_specials(args, kwargs):
+            return None     # escaping of plain operands: property C24
+        return "text"
+    if kind in ("html", "htmlonly"):
+        return "text" if name == "striptags" else None
+    if name in _VALUE_FILTERS:     # stronly, lazy
+        return "text"
+    return None
+
+
 # ------------------------------------------------------------- dispatch
 def check(name, value, args, kwargs, out, info):
     if name == "format":
